@@ -205,6 +205,12 @@ class ManualDevice(sd.Device):
         self._deliver(self.link, r, 'deliver')
 
 
+def norm_cb(c):
+    """update callback of a scenario: [id, scope, ref (, script kind, target, registered at the start)]"""
+    c = list(c)
+    return c + ['nop', 0, True][len(c) - 3:] if len(c) < 6 else c
+
+
 def make_entries(params):
     ents = []
     for i, p in enumerate(params):
@@ -323,7 +329,15 @@ def execute(sc, mutant=None, want_projection=False):
                 ev.append({'e': 'rx', 'chan': pk.channel, 'data': list(pk.data)})
         cf.packet_received.add_callback(on_rx)
 
-        dev.on_tx = lambda pk, n: ev.append({'e': 'tx', 'chan': pk.channel, 'data': list(pk.data)})
+        holds = sc.get('holds', [])
+        due = []                             # virtual time at which the device may answer each pending request
+
+        def on_tx(pk, n):
+            ev.append({'e': 'tx', 'chan': pk.channel, 'data': list(pk.data)})
+            k = st.get('ntx', 0)
+            st['ntx'] = k + 1
+            due.append(s.now + (holds[k] if k < len(holds) else 0.0))
+        dev.on_tx = on_tx
         def on_down(kind, r, w):
             if kind == 'ntf':
                 ev.append({'e': 'ntf', 'chan': r.channel, 'data': list(r.data)})
@@ -344,12 +358,54 @@ def execute(sc, mutant=None, want_projection=False):
             except Exception:
                 return None
 
+        cbdefs = {c[0]: norm_cb(c) for c in sc['updcbs']}
+        cbfun, registered = {}, []          # id -> closure; ids registered now (harness-side book-keeping)
+
+        def api_register(cid, on):
+            _cid, scope, ref, _k, _t, _r = cbdefs[cid]
+            fn = cbfun[cid]
+            if scope == 'all':
+                if on:
+                    cf.param.add_update_callback(cb=fn)
+                else:
+                    cf.param.all_update_callback.remove_callback(fn)     # (remove_update_callback cannot address it)
+            elif scope == 'group':
+                if on:
+                    cf.param.add_update_callback(group='g%d' % ref, cb=fn)
+                else:
+                    cf.param.remove_update_callback('g%d' % ref, cb=fn)
+            else:
+                g, n = pname(params, ref).split('.')
+                if on:
+                    cf.param.add_update_callback(group=g, name=n, cb=fn)
+                else:
+                    cf.param.remove_update_callback(g, n, fn)
+            if on:
+                registered.append(cid)
+            else:
+                registered.remove(cid)
+
         def make_upd_cb(cid):
+            _cid, _scope, _ref, kind, target, _reg0 = cbdefs[cid]
+
             def cb(name, value):
                 p = names.get(name, 0)
                 t = params[p - 1]['type'] if p else 0
-                ev.append({'e': 'upd', 'cb': cid, 'p': p, 'arg': str_repr(t, value),
-                           'cache': str_repr(t, cached(name)), 'get': str_repr(t, got(name))})
+                e = {'e': 'upd', 'cb': cid, 'p': p, 'arg': str_repr(t, value),
+                     'cache': str_repr(t, cached(name)), 'get': str_repr(t, got(name)), 'ops': []}
+                try:
+                    if kind == 'removeSelf' and cid in registered:
+                        api_register(cid, False)
+                        e['ops'].append(['remove', cid])
+                    elif kind == 'remove' and target in registered:
+                        api_register(target, False)
+                        e['ops'].append(['remove', target])
+                    elif kind == 'add' and target not in registered:
+                        api_register(target, True)
+                        e['ops'].append(['add', target])
+                finally:
+                    ev.append(e)
+            cb._c04_cid = cid
             return cb
 
         # ---- connect (real handshake: platform, log toc, mem, param toc, extended types, all values)
@@ -372,14 +428,11 @@ def execute(sc, mutant=None, want_projection=False):
         init_cache = [str_repr(p['type'], cached(pname(params, i + 1))) for i, p in enumerate(params)]
         persistent_seen = [bool(cf.param.toc.get_element_by_complete_name(pname(params, i + 1)).is_persistent())
                            for i in range(np_)]
-        for (cid, scope, ref) in sc['updcbs']:
-            if scope == 'all':
-                cf.param.add_update_callback(cb=make_upd_cb(cid))
-            elif scope == 'group':
-                cf.param.add_update_callback(group='g%d' % ref, cb=make_upd_cb(cid))
-            else:
-                g, n = pname(params, ref).split('.')
-                cf.param.add_update_callback(group=g, name=n, cb=make_upd_cb(cid))
+        for c in sc['updcbs']:
+            cbfun[c[0]] = make_upd_cb(c[0])
+        for c in sc['updcbs']:
+            if norm_cb(c)[5]:
+                api_register(c[0], True)
         base_cbs = len(cf.incoming.cb)
         init_dev = [list(e['value']) for e in ents]          # what the device holds now (= what was fetched)
         for i in sorted(dev.services[sv.PORT_PARAM].ext_answers):
@@ -479,8 +532,8 @@ def execute(sc, mutant=None, want_projection=False):
                 a = 'Other'
                 if op.kind == 'queue.get' and op.obj is upd.request_queue:
                     a = 'UpdGet'
-                elif op.kind == 'lock.acquire' and op.obj is upd.wait_lock:
-                    a = 'UpdLock'
+                elif op.kind == 'lock.acquire' and op.obj is getattr(upd.wait_lock, '_real', upd.wait_lock):
+                    a = 'UpdLock' if op.ready() else 'UpdLockTimeout'
                 elif op.kind == 'lock.acquire' and op.obj is cf._send_lock:
                     a = 'UpdSend'
                 elif op.kind == 'lock.release' and op.obj is cf._send_lock:
@@ -490,7 +543,7 @@ def execute(sc, mutant=None, want_projection=False):
                 op = drec.pending
                 a = 'Other'
                 if op.kind == 'queue.get':
-                    a = 'DispRecv'
+                    a = 'DispRecv' if op.ready() else 'DispIdle'
                 elif op.kind == 'lock.release' and op.obj is upd.wait_lock:
                     a = 'DispRel'
                 return {'e': 'step', 'a': a, 'u': 0, 'what': op.kind}
@@ -501,6 +554,8 @@ def execute(sc, mutant=None, want_projection=False):
                 return {'e': 'step', 'a': 'DevNotify', 'u': 0, 'n': {'p': n[0], 'v': list(n[1])}}
             if key == 'dup':
                 return {'e': 'step', 'a': 'DevDup', 'u': 0, 'i': next_dup()}
+            if key == 'tick':
+                return {'e': 'step', 'a': 'Tick', 'u': 0, 't': int(round(next_deadline() * 1000))}
             return {'e': 'step', 'a': 'Other', 'u': 0, 'what': key}
 
         dups = sc.get('dups', [])
@@ -527,9 +582,9 @@ def execute(sc, mutant=None, want_projection=False):
                         keys.append('u%d' % (i + 1))
             if urec in runnable:
                 keys.append('upd')
-            if drec in runnable and drec.pending is not None and drec.pending.ready():
-                keys.append('disp')
-            if dev.pending:
+            if drec in runnable and drec.pending is not None:
+                keys.append('disp')            # a packet is there, or the 1 s poll ran out (virtual time)
+            if dev.pending and due[0] <= s.now + 1e-9:
                 keys.append('ans')
             if st.get('nn', 0) < len(sc['notifs']):
                 keys.append('ntf')
@@ -538,7 +593,24 @@ def execute(sc, mutant=None, want_projection=False):
             for rec in runnable:
                 if rec not in known and rec.pending is not None and rec.pending.ready():
                     keys.append('t:' + rec.name)
+            if next_deadline(relevant_only=True) is not None:
+                keys.append('tick')            # (last: the fifo policy lets time pass only when nothing else can move)
             return keys
+
+        def next_deadline(relevant_only=False):
+            """earliest future deadline: a held device answer or a timed wait of a thread.  relevant_only: is
+            anything but the dispatcher's idle poll waiting for time to pass?"""
+            ds = []
+            if dev.pending and due[0] > s.now + 1e-9:
+                ds.append(due[0])
+            for rec in s.threads:
+                op = rec.pending
+                if op is None or rec.finished or op.deadline is None or op.ready() or op.deadline <= s.now:
+                    continue
+                if relevant_only and (rec is drec or rec not in known):
+                    continue
+                ds.append(op.deadline)
+            return min(ds) if ds else None
 
         def typed_cache():
             out = []
@@ -571,7 +643,13 @@ def execute(sc, mutant=None, want_projection=False):
                         rc_rid = getattr(cell.cell_contents, '_c04_rid', rc_rid)
                     except ValueError:
                         pass
-            return {'replyCb': rc_rid, 'reqQ': len(upd.request_queue.queue), 'waitLock': bool(upd.wait_lock.locked()),
+            real_regs = set()
+            callers = list(cf.param.param_update_callbacks.values()) + list(cf.param.group_update_callbacks.values()) + \
+                [cf.param.all_update_callback]
+            for c in callers:
+                for fn in c.callbacks:
+                    real_regs.add(getattr(fn, '_c04_cid', -1))
+            return {'regs': sorted(real_regs), 'replyCb': rc_rid, 'reqQ': len(upd.request_queue.queue), 'waitLock': bool(upd.wait_lock.locked()),
                     'lockPat': list(lp) if lp is not None else [], 'upc': upc, 'dpc': dpc,
                     'oneShots': len(cf.incoming.cb) - base_cbs, 'devq': len(dev.pending),
                     'inq': len(dev.link.in_queue.queue) if dev.link is not None else -1,
@@ -608,7 +686,10 @@ def execute(sc, mutant=None, want_projection=False):
             elif key == 'disp':
                 s.step_thread(drec)
             elif key == 'ans':
+                due.pop(0)
                 dev.answer()
+            elif key == 'tick':
+                s.now = next_deadline()
             elif key == 'ntf':
                 n = sc['notifs'][st.get('nn', 0)]
                 st['nn'] = st.get('nn', 0) + 1
@@ -635,7 +716,8 @@ def execute(sc, mutant=None, want_projection=False):
     cfg = {'np': np_, 'type': [p['type'] for p in params], 'ro': [bool(p['ro']) for p in params],
            'pers': [bool(p['pers']) for p in params], 'group': [p['group'] for p in params],
            'init': init_dev,
-           'updcbs': [{'id': c[0], 'scope': c[1], 'ref': c[2]} for c in sc['updcbs']],
+           'updcbs': [{'id': c[0], 'scope': c[1], 'ref': c[2], 'script': [c[3], c[4]], 'reg0': bool(c[5])}
+                      for c in map(norm_cb, sc['updcbs'])],
            'default': [list(p['default']) for p in params],
            'stored0': [list(p['stored']) if p['stored'] else [] for p in params]}
     # binding sanity of the set-up itself (machinery, not verdict): the connect-time cache and the
@@ -712,6 +794,73 @@ def rand_table(rng):
     return ps
 
 
+DELAYS = [0.5, 0.99, 1.0, 1.01, 2.5, 10.0]       # seconds of virtual time a reply is held by the device
+
+
+def script_updcbs(rng, cbs):
+    """give some of the callbacks a script that changes the registrations while an update is dispatched"""
+    out = [norm_cb(c) for c in cbs]
+    ids = [c[0] for c in out]
+    for c in out:
+        r = rng.random()
+        if r < 0.3:
+            c[3] = 'removeSelf'
+        elif r < 0.45 and len(ids) > 1:
+            c[3], c[4] = 'remove', rng.choice([i for i in ids if i != c[0]])
+        elif r < 0.6 and len(ids) > 1:
+            c[3], c[4] = 'add', rng.choice([i for i in ids if i != c[0]])
+    for c in out:
+        if any(d[3] == 'add' and d[4] == c[0] for d in out) and rng.random() < 0.7:
+            c[5] = False
+    return out
+
+
+def callback_scenarios():
+    """update callbacks (per name, per group, all) that remove themselves / remove another / add another while an
+    update is dispatched; two answers and a notification for the parameter so that the changed registry is used again"""
+    out = []
+    params = [P_(0x08, group=1, init=[6], default=[5]), P_(0x08, group=1, init=[7], default=[9]), P_(0x09, group=2, init=[1, 0])]
+    N, T, F = 'nop', True, False
+    configs = [
+        [[1, 'param', 1, 'removeSelf', 0, T], [2, 'param', 1, N, 0, T], [3, 'param', 1, N, 0, T]],
+        [[1, 'group', 1, 'removeSelf', 0, T], [2, 'group', 1, N, 0, T], [3, 'all', 0, N, 0, T]],
+        [[1, 'all', 0, 'removeSelf', 0, T], [2, 'all', 0, N, 0, T]],
+        [[1, 'param', 1, 'remove', 2, T], [2, 'param', 1, N, 0, T], [3, 'all', 0, N, 0, T]],
+        [[1, 'param', 1, 'remove', 2, T], [2, 'group', 1, N, 0, T], [3, 'all', 0, N, 0, T]],
+        [[1, 'param', 1, 'add', 4, T], [2, 'all', 0, 'add', 5, T], [3, 'group', 1, N, 0, T], [4, 'param', 1, N, 0, F],
+         [5, 'all', 0, 'removeSelf', 0, F]],
+        [[1, 'param', 1, N, 0, T], [2, 'all', 0, 'remove', 1, T], [3, 'all', 0, N, 0, T]],
+        [[1, 'param', 1, 'removeSelf', 0, T], [2, 'param', 1, 'removeSelf', 0, T], [3, 'param', 1, N, 0, T],
+         [4, 'group', 1, 'add', 1, T]],
+    ]
+    progs = [[[['set', 1, ival(9)], ['read', 1, None], ['read', 2, None]]],
+             [[['read', 1, None], ['set', 1, ival(3)]], [['read', 2, None], ['read', 1, None]]]]
+    for cbs in configs:
+        for users in progs:
+            for ntf in ([], [[1, [4]]]):
+                for pol in (['fifo', 0], ['random', 5], ['burst', 9]):
+                    out.append({'params': copy.deepcopy(params), 'updcbs': copy.deepcopy(cbs), 'users': copy.deepcopy(users),
+                                'notifs': ntf, 'policy': pol, 'crc': 12})
+    return out
+
+
+def hold_scenarios():
+    """the device holds replies for 0.5 .. 10 s of virtual time while further requests are queued"""
+    out = []
+    params = [P_(0x08, pers=True, group=1, init=[6], default=[5]), P_(0x09, group=1, init=[7, 0], default=[9, 0]),
+              P_(0x06, group=2, init=[0, 0, 192, 63], default=[0, 0, 128, 63])]
+    progs = [[[['set', 1, ival(9)], ['set', 2, ival(300)]]],
+             [[['read', 1, None], ['getstate', 1, None], ['set', 3, fval(2.5)]]],
+             [[['set', 1, ival(9)], ['read', 2, None]], [['getdefault', 1, None], ['set', 2, ival(4)]]]]
+    for d in DELAYS:
+        for users in progs:
+            for which in ([d], [0.0, d], [d, d, d]):
+                for pol in (['fifo', 0], ['random', 11], ['burst', 4]):
+                    out.append({'params': copy.deepcopy(params), 'updcbs': [[1, 'param', 1], [2, 'all', 0]],
+                                'users': copy.deepcopy(users), 'notifs': [], 'holds': which, 'policy': pol, 'crc': 13})
+    return out
+
+
 def rand_updcbs(rng, params):
     cbs, cid = [], 0
     for _ in range(rng.randint(1, 5)):
@@ -773,8 +922,13 @@ def gen_scenario(rng, big=False, misc_unique=False):
         p = rng.randint(1, len(params))
         notifs.append([p, rand_typed(params[p - 1]['type'], rng)])
     kind = rng.choice(['random', 'random', 'pct', 'pct', 'burst', 'fifo', 'slowdev', 'slowdev', 'slowdev', 'slowdisp'])
-    sc = {'params': params, 'updcbs': rand_updcbs(rng, params), 'users': users, 'notifs': notifs,
+    cbs = rand_updcbs(rng, params)
+    if rng.random() < 0.35:
+        cbs = script_updcbs(rng, cbs)
+    sc = {'params': params, 'updcbs': cbs, 'users': users, 'notifs': notifs,
           'policy': [kind, rng.randrange(1 << 30)], 'crc': rng.randrange(1 << 16)}
+    if rng.random() < 0.25:
+        sc['holds'] = [rng.choice(DELAYS + [0.0, 0.0]) for _ in range(rng.randint(1, 4))]
     if rng.random() < 0.3:
         # a retransmitting link delivers some answers twice; the protocol has no sequence numbers, so such a
         # run keeps the release patterns of its requests distinct (a second copy of an old answer cannot be
@@ -965,13 +1119,14 @@ def scenario_from_behaviour(beh):
             script.append('dup')
         else:
             script.append(ACTOR[name])
-    sc = {'params': params, 'updcbs': [[c['id'], c['scope'], c['ref']] for c in cf['updcbs']], 'users': users,
+    sc = {'params': params, 'users': users,
+          'updcbs': [[c['id'], c['scope'], c['ref'], c['script'][0], c['script'][1], c['reg0']] for c in cf['updcbs']],
           'notifs': notifs, 'dups': dups, 'policy': ['script', script], 'crc': 7}
     return sc, acts
 
 
 def spec_projection(st):
-    return {'replyCb': st['replyCb']['rid'], 'reqQ': len(st['reqQ']), 'waitLock': st['waitLock'], 'lockPat': list(st['lockPat']), 'upc': st['upc'],
+    return {'regs': sorted(st['regs']), 'replyCb': st['replyCb']['rid'], 'reqQ': len(st['reqQ']), 'waitLock': st['waitLock'], 'lockPat': list(st['lockPat']), 'upc': st['upc'],
             'dpc': st['dpc'], 'oneShots': len(st['oneShots']), 'devq': len(st['devq']), 'inq': len(st['inq']),
             'dval': [list(x) for x in st['dval']], 'dstored': [list(x) for x in st['dstored']],
             'cache': [list(x) for x in st['cache']]}
@@ -1169,12 +1324,46 @@ def mut_wrong_index(cf):
     upd.request_param_update = request_param_update
 
 
+def mut_caller_live(cf):
+    """Caller.call iterates the live callback list (no defensive copy)"""
+    from cflib.utils.callbacks import Caller
+    orig = Caller.call
+
+    def call(self, *args):
+        for cb in self.callbacks:
+            cb(*args)
+    Caller.call = call
+
+    def undo():
+        Caller.call = orig
+    return undo
+
+
+def mut_wait_timeout(cf):
+    """the updater waits at most 1 s for the previous answer"""
+    upd = cf.param.param_updater
+    real = upd.wait_lock
+
+    class TimedLock:
+        _real = real
+
+        def acquire(self, *a, **k):
+            return real.acquire(timeout=1.0)
+
+        def release(self):
+            return real.release()
+
+        def locked(self):
+            return real.locked()
+    upd.wait_lock = TimedLock()
+
+
 MUTANTS = {
     'wrap_out_of_range': mut_wrap, 'readonly_not_refused': mut_ro, 'lifo_queue': mut_lifo, 'no_wait_lock': mut_nowait,
     'release_on_any_packet': _packet_cb_variant('release_any'),
     'update_callbacks_twice': _packet_cb_variant('twice'), 'read_status_not_stripped': _packet_cb_variant('no_strip'),
     'lock_pattern_not_reset': _packet_cb_variant('no_reset'), 'stale_cache': mut_stale_cache, 'uint16_as_int16': mut_u16_signed, 'float_truncated': mut_float_trunc,
-    'read_wrong_index': mut_wrong_index,
+    'read_wrong_index': mut_wrong_index, 'caller_live_iteration': mut_caller_live, 'wait_lock_timeout': mut_wait_timeout,
 }
 
 
@@ -1253,7 +1442,7 @@ def patch_oneshot_post(cf):
     _replace_port_cb(cf, upd._new_packet_cb, new_packet_cb)
 
 
-PRE_CONNECT = {'uint16_as_int16'}       # the others are switched on after the connection is complete
+PRE_CONNECT = {'uint16_as_int16', 'caller_live_iteration'}       # the others are switched on after the connection is complete
 
 
 # --------------------------------------------------------------------------- running / judging
@@ -1420,7 +1609,8 @@ def signature(t, clause, at):
 VARIANT_CFG = {'none': ('TRACE_ParamProto.cfg', 'SIM_ParamProto.cfg'),              # the repaired code
                'cmdOnly': ('TRACE_ParamProto_cmdOnly.cfg', 'SIM_ParamProto_cmdOnly.cfg'),   # pre-fix trees
                'cmdId': ('TRACE_ParamProto_cmdId.cfg', 'SIM_ParamProto_cmdId.cfg')}
-BUG_CFGS = ['cmdOnly', 'cmdId', 'noWait', 'lifo', 'wrap', 'roSend', 'anyRelease', 'cbTwice', 'noReset']
+BUG_CFGS = ['cmdOnly', 'cmdId', 'noWait', 'lifo', 'wrap', 'roSend', 'anyRelease', 'cbTwice', 'noReset', 'liveIter',
+            'waitTimeout']
 
 
 def detect_variant():
@@ -1442,7 +1632,7 @@ def detect_variant():
 
 def _tlc_jobs(tier):
     jobs = [('check', 'MC_ParamProto_%s.cfg' % ('quick' if tier == 'quick' else 'thorough'), 8 if tier == 'quick' else 6),
-            ('check', 'MC_ParamProto_codec.cfg', 2),
+            ('check', 'MC_ParamProto_codec.cfg', 2), ('check', 'MC_ParamProto_cbs.cfg', 2),
             ('check', 'MC_ParamProto_dup_quick.cfg' if tier == 'quick' else 'MC_ParamProto_dup.cfg', 4)]
     if tier == 'thorough':
         jobs.append(('check', 'MC_ParamProto_thorough4.cfg', 6))
@@ -1459,13 +1649,11 @@ def _run_tlc_job(job):
     return job, tlc.expect_violation('MC_ParamProto.tla', cfg, workers=workers, timeout=900)
 
 
-def _sim_job(args):
-    out = []
-    for (sim_cfg, nsim, seed) in args:
-        rs, behs = tlc.simulate('MC_ParamProto.tla', sim_cfg, num=nsim, depth=70, seed=seed, timeout=2400)
-        rs.output = rs.output[-1500:]
-        out.append((sim_cfg, nsim, rs, [compact_behaviour(b) for b in behs if len(b) > 2]))
-    return out
+def _sim_job(arg):
+    sim_cfg, nsim, seed = arg
+    rs, behs = tlc.simulate('MC_ParamProto.tla', sim_cfg, num=nsim, depth=70, seed=seed, timeout=2400)
+    rs.output = rs.output[-1500:]
+    return (sim_cfg, nsim, rs, [compact_behaviour(b) for b in behs if len(b) > 2])
 
 
 def _tlc_helper(tier, sim_args, conn):
@@ -1473,10 +1661,10 @@ def _tlc_helper(tier, sim_args, conn):
     single-threaded and forks its worker pools safely)"""
     from concurrent.futures import ThreadPoolExecutor
     try:
-        with ThreadPoolExecutor(max_workers=3) as ex:
-            fsim = ex.submit(_sim_job, sim_args)
+        with ThreadPoolExecutor(max_workers=4) as ex:
+            fsims = [ex.submit(_sim_job, a) for a in sim_args]
             futs = [ex.submit(_run_tlc_job, j) for j in _tlc_jobs(tier)]
-            conn.send(fsim.result())            # first message: the simulated behaviours
+            conn.send([f.result() for f in fsims])      # first message: the simulated behaviours
             res = [f.result() for f in futs]
         for (_job, r) in res:
             r.output = r.output[-1500:]
@@ -1554,6 +1742,10 @@ def main(tier, seed, replay=None):
         'wire order must equal that order',
         '"answered before the next is sent": the device has emitted its answer before it receives the next request '
         '(device answers after an arbitrary, scheduler-chosen delay)',
+        'update callbacks that add / remove registrations while an update is dispatched: a callback registered throughout is '
+        'called exactly once per answer, one added or removed during that dispatch at most once (reading of C07, DESIGN 3.1(2))',
+        'reply delays are also delays in virtual time (0.5 .. 10 s, the clock may advance whenever something waits for it); the '
+        'clauses do not mention time, so they must hold for every delay',
         'duplicated answers (a retransmitting link): a second copy of an answer must reach nobody and change nothing; judged in runs '
         'whose requests have pairwise distinct release patterns (without sequence numbers a copy of an old answer cannot be told '
         'from the answer to a later request for the same parameter / command)',
@@ -1594,18 +1786,22 @@ def main(tier, seed, replay=None):
     pipe_w.close()
     try:
         # 3a. code -> spec: enumerations + seeded random programs executed on the real code
-        msc = mutant_scenarios(rng, 48 if tier == 'quick' else 200)
+        msc = mutant_scenarios(rng, 32 if tier == 'quick' else 160)
         pairs = pair_scenarios()
         if tier == 'quick':
-            pairs = pairs[:len(pairs) // 3]
+            pairs = pairs[:len(pairs) // 4]
         dsc = dup_scenarios()
         if tier == 'quick':
             dsc = dsc[::3]
         dval_ = [sc for sc in dsc if sc['users'][0][0][0] in ('read', 'set')]
         dmisc = [sc for sc in dsc if sc['users'][0][0][0] not in ('read', 'set')]
-        ssc = msc + dval_[::(4 if tier == 'quick' else 2)] + dmisc[::(12 if tier == 'quick' else 6)]   # what the mutants run on
-        scs = codec_scenarios(rng) + pairs + msc + dsc + connect_ntf_scenarios()
-        nrand = 500 if tier == 'quick' else 16000
+        ssc = msc + dval_[::(8 if tier == 'quick' else 3)] + dmisc[::(24 if tier == 'quick' else 8)]   # what the mutants run on
+        csc, hsc = callback_scenarios(), hold_scenarios()
+        if tier == 'quick':
+            csc, hsc = csc[::2], hsc[::3]
+        ssc += csc[::(8 if tier == 'quick' else 3)] + hsc[::(9 if tier == 'quick' else 3)]
+        scs = codec_scenarios(rng) + pairs + msc + dsc + csc + hsc + connect_ntf_scenarios()
+        nrand = 350 if tier == 'quick' else 16000
         for i in range(nrand):
             scs.append(gen_scenario(random.Random(rng.randrange(1 << 60)), big=(i % 4 == 0), misc_unique=(i % 3 != 0)))
         traces = run_scenarios(scs)
